@@ -163,7 +163,7 @@ def key_fn(case: dict[str, Any], label: str, item: dict[str, Any], conc: dict[st
     # line-start escapes introduced at one width persist at another, whichever marker is involved
     if label == "history:escape" and case.get("fam") == "para" and (case["special"] in dict(DOCS.HAZ) or case["special"] == "esc-period") and DOCS.special_key(case).endswith("@inner]"):
         cls = "escape-persists"
-    if cls == "first-word-alone":
+    if cls in ("first-word-alone", "sentence-initial-marker"):
         label = label.split(":")[0]
     if label == "relayout:space-runs":
         # runs of spaces surviving in a heading line or a table row (neither is re-flowed), wherever it sits
